@@ -1,7 +1,17 @@
 import FancyModel.Spec.Stage
 import FancyModel.Spec.Sem
+import FancyModel.Lemmas.S3Glue
 /-!
-# A linear expression has at most one result
+# All results of a linear expression are one and the same state
+
+`linear_same` / `linearAll_same`: from a good state, any two results of a `linearE` expression are
+equal. Without alternations there is at most one result; an accepted alternation (no capture groups,
+all alternatives of one constant size) may have several, all equal to `{st with ix := st.ix + size}`
+(`same_of_const_groupfree_one`, from `C13_const_exact` and the frame lemma). The statement holds for
+every `Ctx`: nothing is assumed about the character tables.
+
+"At most one result" is *not* true of an alternation such as `(a|b)`: the case-sensitive comparison
+`Ctx.ceq false` is a free table, and with a permissive one both alternatives match.
 -/
 namespace Fancy
 
@@ -30,61 +40,6 @@ theorem repLoop_exact_le_one (body : St → List St) (hb : ∀ st, (body st).len
       simp only [hne, ↓reduceIte, Option.isNone_some, Bool.false_and, Bool.false_eq_true, hlt]
       exact flatMap_length_le_one _ _ (hb st) (fun r _ => ih (count + 1) r (by omega))
 
-mutual
-theorem linear_le_one (c : Ctx) : ∀ (e : Expr), linearE e = true → ∀ st, (sem c e st).length ≤ 1
-  | .empty, _, st => by simp [sem]
-  | .any nl, _, st => by
-    simp only [sem]
-    cases c.at? st.ix with
-    | none => simp
-    | some ch =>
-      simp only
-      by_cases h : (nl || ch != '\n') = true
-      · simp [h]
-      · simp only [h]; simp
-  | .assertion a, _, st => by simp only [sem]; split <;> simp
-  | .literal v ci, _, st => by simp only [sem]; split <;> simp
-  | .delegate inner size ci, _, st => by
-    simp only [sem, delegateSem]
-    by_cases h1 : (size == 1) = true
-    · simp only [h1, ↓reduceIte]
-      cases c.at? st.ix with
-      | none => simp
-      | some ch =>
-        simp only
-        by_cases h2 : c.cls inner ci ch = true
-        · simp [h2]
-        · simp only [h2]; simp
-    · simp only [h1, Bool.false_eq_true, ↓reduceIte]
-      by_cases h3 : (size == 0 && inner == ['\n', '*', '$']) = true
-      · simp only [h3, ↓reduceIte]
-        by_cases h4 : (st.ix + c.newlinesFrom st.ix == c.len) = true
-        · simp [h4]
-        · simp only [h4]; simp
-      · simp only [h3]; simp
-  | .concat es, h, st => by
-    simp only [linearE] at h
-    simp only [sem]
-    exact linearAll_le_one c es h st
-  | .group g e, h, st => by
-    simp only [linearE] at h
-    simp only [sem, List.length_map]
-    exact linear_le_one c e h _
-  | .repeat e lo hi gr, h, st => by
-    simp only [linearE, Bool.and_eq_true, beq_iff_eq] at h
-    obtain ⟨he, rfl⟩ := h
-    simp only [sem]
-    exact repLoop_exact_le_one (sem c e) (linear_le_one c e he) lo gr _ 0 st (Nat.zero_le _)
-  | .alt _, h, _ | .look _ _, h, _ | .backref _, h, _ | .atomic _, h, _ | .keepOut, h, _ | .contPrev, h, _
-  | .backrefExists _, h, _ | .cond _ _ _, h, _ | .subroutine _, h, _ => by simp [linearE] at h
-theorem linearAll_le_one (c : Ctx) : ∀ (es : List Expr), linearAll es = true → ∀ st, (semConcat c es st).length ≤ 1
-  | [], _, st => by simp [semConcat]
-  | e :: es, h, st => by
-    simp only [linearAll, Bool.and_eq_true] at h
-    simp only [semConcat]
-    exact flatMap_length_le_one _ _ (linear_le_one c e h.1 st) (fun r _ => linearAll_le_one c es h.2 r)
-end
-
 /-- any two members of a list with at most one element are equal -/
 theorem eq_of_mem_length_le_one {α : Type} {l : List α} (h : l.length ≤ 1) {a b : α} (ha : a ∈ l) (hb : b ∈ l) : a = b := by
   cases l with
@@ -93,6 +48,159 @@ theorem eq_of_mem_length_le_one {α : Type} {l : List α} (h : l.length ≤ 1) {
     cases xs with
     | nil => simp at ha hb; rw [ha, hb]
     | cons y ys => simp at h
+
+/-- an exact-count loop over a body all of whose results (from a state within the invariant `P`) are
+    one state: all results of the loop are one state -/
+theorem repLoop_exact_same (P : St → Prop) (body : St → List St) (hP : ∀ st r, P st → r ∈ body st → P r)
+    (hb : ∀ st, P st → ∀ r q, r ∈ body st → q ∈ body st → r = q) (lo : Nat) (greedy : Bool) :
+    ∀ (fuel count : Nat) (st : St), P st → count ≤ lo →
+      ∀ r q, r ∈ repLoop body lo (some lo) greedy fuel count st →
+        q ∈ repLoop body lo (some lo) greedy fuel count st → r = q := by
+  intro fuel
+  induction fuel with
+  | zero => intro count st _ _ r q hr; simp [repLoop] at hr
+  | succ fuel ih =>
+    intro count st hst hc r q hr hq
+    unfold repLoop at hr hq
+    by_cases heq : lo = count
+    · subst heq
+      simp only [↓reduceIte, List.mem_singleton] at hr hq
+      rw [hr, hq]
+    · have hne : ¬ (some lo = some count) := by simpa using heq
+      have hlt : count < lo := by omega
+      simp only [hne, ↓reduceIte, Option.isNone_some, Bool.false_and, Bool.false_eq_true, hlt,
+        List.mem_flatMap] at hr hq
+      obtain ⟨r1, hr1, hr⟩ := hr
+      obtain ⟨q1, hq1, hq⟩ := hq
+      have h1 := hb st hst r1 q1 hr1 hq1
+      subst h1
+      exact ih (count + 1) r1 (hP st r1 hst hr1) (by omega) r q hr hq
+
+/-! ## The leaves: at most one result -/
+
+theorem sem_any_le_one (c : Ctx) (nl : Bool) (st : St) : (sem c (.any nl) st).length ≤ 1 := by
+  simp only [sem]
+  cases c.at? st.ix with
+  | none => simp
+  | some ch =>
+    simp only
+    by_cases h : (nl || ch != '\n') = true
+    · simp [h]
+    · simp only [h]; simp
+
+theorem sem_delegate_le_one (c : Ctx) (inner : List Char) (size : Nat) (ci : Bool) (st : St) :
+    (sem c (.delegate inner size ci) st).length ≤ 1 := by
+  simp only [sem, delegateSem]
+  by_cases h1 : (size == 1) = true
+  · simp only [h1, ↓reduceIte]
+    cases c.at? st.ix with
+    | none => simp
+    | some ch =>
+      simp only
+      by_cases h2 : c.cls inner ci ch = true
+      · simp [h2]
+      · simp only [h2]; simp
+  · simp only [h1, Bool.false_eq_true, ↓reduceIte]
+    by_cases h3 : (size == 0 && inner == ['\n', '*', '$']) = true
+    · simp only [h3, ↓reduceIte]
+      by_cases h4 : (st.ix + c.newlinesFrom st.ix == c.len) = true
+      · simp [h4]
+      · simp only [h4]; simp
+    · simp only [h3]; simp
+
+/-! ## A linear expression is pure -/
+
+mutual
+theorem linear_pure : ∀ (e : Expr), linearE e = true → pureExpr e = true
+  | .empty, _ | .any _, _ | .assertion _, _ | .literal _ _, _ | .delegate _ _ _, _ => by simp [pureExpr]
+  | .concat es, h => by
+    simp only [linearE] at h
+    simp only [pureExpr]
+    exact linearAll_pure es h
+  | .alt es, h => by
+    simp only [linearE, Bool.and_eq_true] at h
+    simp only [pureExpr]
+    exact linearAll_pure es h.1.1
+  | .group g e, h => by
+    simp only [linearE] at h
+    simp only [pureExpr]
+    exact linear_pure e h
+  | .repeat e lo hi gr, h => by
+    simp only [linearE, Bool.and_eq_true] at h
+    simp only [pureExpr]
+    exact linear_pure e h.1
+  | .look _ _, h | .backref _, h | .atomic _, h | .keepOut, h | .contPrev, h
+  | .backrefExists _, h | .cond _ _ _, h | .subroutine _, h => by simp [linearE] at h
+theorem linearAll_pure : ∀ (es : List Expr), linearAll es = true → pureAll es = true
+  | [], _ => by simp [pureAll]
+  | e :: es, h => by
+    simp only [linearAll, Bool.and_eq_true] at h
+    simp only [pureAll, Bool.and_eq_true]
+    exact ⟨linear_pure e h.1, linearAll_pure es h.2⟩
+end
+
+/-! ## One state -/
+
+mutual
+/-- **all results of a linear expression from a good state are one and the same state** -/
+theorem linear_same (c : Ctx) (n : Nat) (hlen : c.len < UNSET) : ∀ (e : Expr), linearE e = true →
+    wellShaped e = true → noBareEndZ e = true → ∀ (st : St), st.Good c n →
+    ∀ r q, r ∈ sem c e st → q ∈ sem c e st → r = q
+  | .empty, _, _, _, st, _, r, q, hr, hq => by
+    simp only [sem, List.mem_singleton] at hr hq; rw [hr, hq]
+  | .any nl, _, _, _, st, _, r, q, hr, hq => eq_of_mem_length_le_one (sem_any_le_one c nl st) hr hq
+  | .assertion a, _, _, _, st, _, r, q, hr, hq =>
+    eq_of_mem_length_le_one (l := sem c (.assertion a) st) (by simp only [sem]; split <;> simp) hr hq
+  | .literal v ci, _, _, _, st, _, r, q, hr, hq =>
+    eq_of_mem_length_le_one (l := sem c (.literal v ci) st) (by simp only [sem]; split <;> simp) hr hq
+  | .delegate inner size ci, _, _, _, st, _, r, q, hr, hq =>
+    eq_of_mem_length_le_one (sem_delegate_le_one c inner size ci st) hr hq
+  | .concat es, h, hw, hz, st, hg, r, q, hr, hq => by
+    simp only [linearE] at h
+    simp only [sem] at hr hq
+    exact linearAll_same c n hlen es h (wellShaped_concat hw) (by simpa [noBareEndZ] using hz) st hg r q hr hq
+  | .alt es, h, hw, hz, st, hg, r, q, hr, hq => by
+    have hp := linear_pure (.alt es) h
+    simp only [linearE, Bool.and_eq_true, beq_iff_eq] at h
+    exact same_of_const_groupfree_one c n (.alt es) hw h.2 hz hp (by simpa [groupCount] using h.1.2) hlen st hg
+      r q hr hq
+  | .group g e, h, hw, hz, st, hg, r, q, hr, hq => by
+    simp only [linearE] at h
+    simp only [sem, List.mem_map] at hr hq
+    obtain ⟨r1, hr1, rfl⟩ := hr
+    obtain ⟨q1, hq1, rfl⟩ := hq
+    have := linear_same c n hlen e h (wellShaped_group hw) (by simpa [noBareEndZ] using hz) _
+      (hg.setSlot (2 * g) st.ix hg.ix) r1 q1 hr1 hq1
+    rw [this]
+  | .repeat e lo hi gr, h, hw, hz, st, hg, r, q, hr, hq => by
+    simp only [linearE, Bool.and_eq_true, beq_iff_eq] at h
+    obtain ⟨he, rfl⟩ := h
+    simp only [sem] at hr hq
+    have hz' : noBareEndZ e = true := by simpa [noBareEndZ] using hz
+    exact repLoop_exact_same (fun s => s.Good c n) (sem c e) (fun s r' hs hr' => sem_good c n e s r' hs hr')
+      (fun s hs => linear_same c n hlen e he (wellShaped_repeat hw) hz' s hs) lo gr _ 0 st hg (Nat.zero_le _)
+      r q hr hq
+  | .look _ _, h, _, _, _, _, _, _, _, _ | .backref _, h, _, _, _, _, _, _, _, _
+  | .atomic _, h, _, _, _, _, _, _, _, _ | .keepOut, h, _, _, _, _, _, _, _, _
+  | .contPrev, h, _, _, _, _, _, _, _, _ | .backrefExists _, h, _, _, _, _, _, _, _, _
+  | .cond _ _ _, h, _, _, _, _, _, _, _, _ | .subroutine _, h, _, _, _, _, _, _, _, _ => by
+    simp [linearE] at h
+theorem linearAll_same (c : Ctx) (n : Nat) (hlen : c.len < UNSET) : ∀ (es : List Expr), linearAll es = true →
+    wellShapedAll es = true → noBareEndZAll es = true → ∀ (st : St), st.Good c n →
+    ∀ r q, r ∈ semConcat c es st → q ∈ semConcat c es st → r = q
+  | [], _, _, _, st, _, r, q, hr, hq => by
+    simp only [semConcat, List.mem_singleton] at hr hq; rw [hr, hq]
+  | e :: es, h, hw, hz, st, hg, r, q, hr, hq => by
+    simp only [linearAll, Bool.and_eq_true] at h
+    simp only [noBareEndZAll, Bool.and_eq_true] at hz
+    have hw' := wellShapedAll_cons hw
+    simp only [semConcat, List.mem_flatMap] at hr hq
+    obtain ⟨r1, hr1, hr⟩ := hr
+    obtain ⟨q1, hq1, hq⟩ := hq
+    have h1 := linear_same c n hlen e h.1 hw'.1 hz.1 st hg r1 q1 hr1 hq1
+    subst h1
+    exact linearAll_same c n hlen es h.2 hw'.2 hz.2 r1 (sem_good c n e st r1 hg hr1) r q hr hq
+end
 
 theorem linearAll_take (es : List Expr) (k : Nat) (h : linearAll es = true) : linearAll (es.take k) = true := by
   induction es generalizing k with
